@@ -134,7 +134,7 @@ NoSites == [sites |-> <<>>, amb |-> FALSE]
 (* full = TRUE: every hit of every pattern - "all primer hits of all markers", the list the *)
 (* property speaks of; it is mirror-symmetric under reverse complementation.                *)
 (* full = FALSE: the partner pattern is searched only behind the first direct hit of its    *)
-(* primer (a shortcut the code took as received): the hits of a read and of its reverse     *)
+(* primer (the shortcut of the code as received, before fix 86ebd97): the hits of a read and of its reverse *)
 (* complement are then not mirror images of each other any more (kept to tell which reads   *)
 (* are sensitive to it).                                                                    *)
 MarkerMatches(mk, i, S, full) ==
